@@ -42,6 +42,12 @@ def coq_op(o):
         return "(SBurstRel %d)" % o[1]
     if n == "wait_delivered":
         return "(SDelivered %d)" % o[1]
+    if n == "peer_inv":
+        return "(SInv %d)" % o[1]
+    if n == "tx_age":
+        return "STxAge"
+    if n == "peer_getdata":
+        return "(SGetData %d)" % o[1]
     if n == "peer_headers":
         return "(SHeaders %d)" % o[1]
     if n == "peer_blocks":
@@ -296,6 +302,33 @@ def scenario(rng, kind):
         g.add("release", 0)
         g.add("wait_delivered", n + len(g.rel))
         g.stop_tail()
+    elif kind in ("tracker_first", "tracker_reconnect"):
+        # C14 on the trusted connection: the peer announces a tx (the node asks for it), does not deliver, announces it
+        # again inside the window (only remembered), the window passes, the peer shows activity: asked again.
+        # tracker_reconnect: the same after the trusted connection was lost and made again in the same process.
+        g.add("start")
+        g.handshake()
+        g.insync()
+
+        def cycle():
+            g.ntx += 1
+            t = g.ntx
+            g.add("peer_inv", t)
+            g.add("peer_inv", t)
+            g.add("tx_age", r.choice([4, 5, 10]))
+            g.add("peer_getdata", t)
+            return t
+        if kind == "tracker_first" or r.chance(1, 2):
+            cycle()
+        if kind == "tracker_reconnect":
+            g.add(r.choice(["peer_close", "peer_reset"]))
+            g.add("peer_accept")
+            g.add("peer_version")
+            g.sent = 0
+            g.insync()
+            t = cycle()
+            g.add("peer_getdata", t)
+        g.add("stop")
     elif kind == "apifill":
         # a concurrent caller of the public API: a relevant tx sits in a held handler / fetcher call (nothing is
         # taken off the tx channel), the application fills the 100 slots through Node.HandleTx, call 101 waits for
@@ -576,6 +609,14 @@ def completeness_scenarios(tier, rng, workdir):
     return _side_suite("shutdown_complete", ["backpressure"], tier, rng, workdir, 19800, 2, 10)
 
 
+def tracker_reconnect_scenarios(tier, rng, workdir):
+    """C14 on the real run loop, for the `extra` hook of gen/c14.py: re-request of an announced, undelivered tx at
+    the trusted peer's next activity after the window - on the first connection and after a reconnect in the same
+    process.  Monitor code 912.  Failure records carry suite = "shutdown_tracker"."""
+    return _side_suite("shutdown_tracker", ["tracker_first", "tracker_reconnect", "tracker_reconnect"], tier, rng, workdir,
+                       19850, 3, 12)
+
+
 def keyfn(rec):
     if rec.get("suite") == "untrusted":
         ops = rec.get("ops", [])
@@ -605,6 +646,8 @@ def keyfn(rec):
             insync = True
         elif o[0] in ("peer_blockinv", "restart", "peer_close", "peer_reset"):
             insync = False
+    if opn == "peer_getdata":
+        shape = "after-reconnect" if any(o[0] in ("peer_close", "peer_reset") for o in before) else "first-connection"
     if any(o[0] == "peer_burst_rel" for o in before):
         shape = "backpressure-" + shape
     if any(o[0] == "peer_txblock" for o in before):
